@@ -80,11 +80,11 @@ thread (post, timers, set/cancel I/O events — even when `set_event` runs the f
 the caller's thread —, stop, reset) ever invokes a handler; … -/
 theorem ops_never_invoke (s : St) (o : Op) : (opStep s o).log = s.log := by
   cases o with
-  | setIo fd e ok =>
+  | setIo fd e ok er =>
     simp only [opStep]
     split
     · rfl
-    · exact (setterBody_frame _ fd e _ ok).2.2
+    · exact (setterBody_frame _ fd e _ ok er).2.2
   | cancelIo fd =>
     cases fd with
     | none => rfl
@@ -125,7 +125,7 @@ theorem runs_on_loop_thread (s : St) (i : LoopInp) (hne : (loopStep s i).log ≠
       | setter fd e t =>
         exfalso; apply hne
         simp only [execItem]
-        exact (setterBody_frame s fd e t i.selOk).2.2
+        exact (setterBody_frame s fd e t i.selOk i.selErr).2.2
       | canceler fd =>
         exfalso; apply hne
         simp only [execItem]
@@ -147,8 +147,8 @@ def d12Witness : List Act :=
   let l : Act := .loop {}
   let lr : Act := .loop { events := [{ fd := 0, rd := true, wr := false, err := false }] }
   [l, l,                                   -- run_one: lock … unlock before poll
-   .op (.setIo (some 0) .rd true),          -- handler 0
-   .op (.setIo (some 0) .rd true),          -- handler 1, same slot
+   .op (.setIo (some 0) .rd true .sysErr),  -- handler 0
+   .op (.setIo (some 0) .rd true .sysErr),  -- handler 1, same slot
    l, l, l, l, l, l, l,                     -- next run_one: both queued setters executed, parked again
    lr, l, l, l, l]                          -- readable reported: dispatched, executed, parked again
 
@@ -164,7 +164,7 @@ theorem double_arm_drops_first_counterexample :
 
 /-- a step arms a slot that already holds a handler -/
 def DoubleArmAt (s : St) (a : Act) : Prop :=
-  (∃ fd e ok, a = .op (.setIo (some fd) e ok) ∧ ¬ (s.polling || !s.reactorUp) = true ∧ ok = true ∧
+  (∃ fd e ok er, a = .op (.setIo (some fd) e ok er) ∧ ¬ (s.polling || !s.reactorUp) = true ∧ ok = true ∧
       (match e with | .rd => (ioGet s.map fd).rd | .wr => (ioGet s.map fd).wr) ≠ none)
   ∨ (∃ i fd e t, a = .loop i ∧ s.phase = .executing ∧ s.running = some (.setter (some fd) e t) ∧ i.selOk = true ∧
       (match e with | .rd => (ioGet s.map fd).rd | .wr => (ioGet s.map fd).wr) ≠ none)
@@ -175,10 +175,10 @@ def NoDoubleArm : St → List Act → Prop
   | s, a :: as => ¬ DoubleArmAt s a ∧ NoDoubleArm (step s a) as
 
 theorem lost_step (s : St) (a : Act) (hn : ¬ DoubleArmAt s a) : (step s a).lost = s.lost := by
-  have setter_lost : ∀ (s : St) fd e t ok,
+  have setter_lost : ∀ (s : St) fd e t ok er,
       (∀ f, fd = some f → ok = true → (match e with | .rd => (ioGet s.map f).rd | .wr => (ioGet s.map f).wr) = none) →
-      (setterBody s fd e t ok).lost = s.lost := by
-    intro s fd e t ok h
+      (setterBody s fd e t ok er).lost = s.lost := by
+    intro s fd e t ok er h
     unfold setterBody
     cases fd with
     | none => rfl
@@ -191,7 +191,7 @@ theorem lost_step (s : St) (a : Act) (hn : ¬ DoubleArmAt s a) : (step s a).lost
   cases a with
   | op o =>
     cases o with
-    | setIo fd e ok =>
+    | setIo fd e ok er =>
       simp only [step, opStep]
       split
       · rfl
@@ -201,7 +201,7 @@ theorem lost_step (s : St) (a : Act) (hn : ¬ DoubleArmAt s a) : (step s a).lost
         refine Classical.byContradiction fun hc => ?_
         apply hn
         left
-        exact ⟨f, e, ok, by rw [hf], hq, hok, by simpa using hc⟩
+        exact ⟨f, e, ok, er, by rw [hf], hq, hok, by simpa using hc⟩
     | cancelIo fd =>
       cases fd with
       | none => rfl
@@ -285,7 +285,7 @@ theorem invoked_or_pending_partial (as : List Act) (h : Nat) (hn : NoDoubleArm i
   simp at hc
   omega
 
-example : NoDoubleArm init [.op (.setIo (some 3) .rd true), .loop {}, .loop {}, .loop {}, .op (.setIo (some 3) .wr true)] := by
+example : NoDoubleArm init [.op (.setIo (some 3) .rd true .sysErr), .loop {}, .loop {}, .loop {}, .op (.setIo (some 3) .wr true .sysErr)] := by
   simp [NoDoubleArm, DoubleArmAt, step, opStep, loopStep, init, push, execItem, setterBody, ioGet, ioSet]
 
 end Cppcms.C17.Props
